@@ -638,6 +638,16 @@ def run(only=None):
         hist.poisoned_histories(s, funcs, bad_args, probes)
         s.done()
 
+    if want("kept_results"):
+        s = rep.sub("kept_results", "encode / decode / repair / deinterleave_all_bits of 20 messages in a row with every returned bitarray kept by the caller: after the last "
+                                    "call each is still the result of its own call")
+        km = spaces.small_scope_messages(K, 0, extra=[env.det_bits(f"c02-kept-{i}", K) for i in range(18)])
+        hist.kept_results(s, "encode", [({"message": m}, (lambda m=m: BPTC19696.encode(bitarray(m)))) for m in km], obs=lambda r: r.to01())
+        hist.kept_results(s, "decode_one_error", [({"message": m}, (lambda m=m: BPTC19696.deinterleave_data_bits(bitarray(spaces.flip(ref_encode(m), (INFO_TX[5],))), True))) for m in km], obs=lambda r: r.to01())
+        hist.kept_results(s, "repair_if_necessary", [({"message": m}, (lambda m=m: BPTC19696.repair_if_necessary(bitarray(spaces.flip(ref_encode(m), (INFO_TX[9],)))))) for m in km], obs=lambda r: r.to01())
+        hist.kept_results(s, "deinterleave_all_bits", [({"message": m}, (lambda m=m: BPTC19696.deinterleave_all_bits(bitarray(ref_encode(m))))) for m in km], obs=lambda r: r.to01())
+        s.done()
+
     if want("long_call_history"):
         s = rep.sub("long_call_history",
                     "encode / decode-with-repair of one fixed message called again and again in one process: the result never depends on how "
